@@ -810,6 +810,34 @@ class DefEval:
                 self.err(func, st, "nested def decorator")
         elif isinstance(st, ast.Return):
             raise _Return(self.expr(fr, st.value) if st.value is not None else None)
+        elif isinstance(st, ast.Try):
+            # class hooks do not raise at definition time (a raise is an AnalysisError): body, else, finally
+            self.block(fr, st.body)
+            self.block(fr, st.orelse)
+            self.block(fr, st.finalbody)
+        elif isinstance(st, ast.With):
+            for it in st.items:
+                v = self.expr(fr, it.context_expr)
+                if it.optional_vars is not None:
+                    self.assign(fr, it.optional_vars, v)
+            self.block(fr, st.body)
+        elif isinstance(st, ast.AugAssign):
+            cur = self.expr(fr, st.target)
+            v = self.expr(fr, st.value)
+            try:
+                if isinstance(st.op, ast.Add):
+                    nv = cur + v
+                elif isinstance(st.op, ast.BitOr):
+                    nv = cur | v
+                elif isinstance(st.op, ast.Sub):
+                    nv = cur - v
+                else:
+                    self.err(func, st, "augmented assignment operator")
+            except TypeError:
+                self.err(func, st, "augmented assignment operands")
+            self.assign(fr, st.target, nv)
+        elif isinstance(st, (ast.Assert, ast.Global, ast.Nonlocal, ast.Import, ast.ImportFrom)):
+            return
         elif isinstance(st, ast.Raise):
             raise AnalysisError(
                 f"{func.module.path}:{st.lineno}: class hook raises at definition time for {fr['cls'].name}: {ast.unparse(st)[:80]}"
@@ -957,6 +985,32 @@ class DefEval:
             return out
         if isinstance(e, ast.Call):
             return self.call_expr(fr, e)
+        if isinstance(e, ast.IfExp):
+            c = self.expr(fr, e.test)
+            if isinstance(c, Opaque):
+                self.err(func, e.test, "condition with opaque value")
+            return self.expr(fr, e.body if c else e.orelse)
+        if isinstance(e, ast.JoinedStr):
+            out = ""
+            for x in e.values:
+                out += x.value if isinstance(x, ast.Constant) else str(self.expr(fr, x.value))
+            return out
+        if isinstance(e, ast.BinOp):
+            a, b = self.expr(fr, e.left), self.expr(fr, e.right)
+            try:
+                if isinstance(e.op, ast.Add):
+                    return a + b
+                if isinstance(e.op, ast.BitOr):
+                    return a | b
+                if isinstance(e.op, ast.Sub):
+                    return a - b
+                if isinstance(e.op, ast.Mult):
+                    return a * b
+            except TypeError:
+                pass
+            self.err(func, e, "binary operation")
+        if isinstance(e, ast.Set):
+            return frozenset(self.expr(fr, x) for x in e.elts)
         self.err(func, e, "expression")
 
     def call_expr(self, fr, e):
@@ -977,6 +1031,28 @@ class DefEval:
             self.err(func, e, "hasattr")
         if d in ("RLock", "threading.RLock", "Lock", "threading.Lock"):
             return Opaque("RLock", e)
+        if d in ("len", "list", "tuple", "set", "frozenset", "sorted", "dict", "bool", "str", "reversed") and len(e.args) <= 1 and not e.keywords:
+            args = [self.expr(fr, a) for a in e.args]
+            try:
+                r = {"len": len, "list": list, "tuple": tuple, "set": frozenset, "frozenset": frozenset, "sorted": sorted, "dict": dict, "bool": bool, "str": str, "reversed": lambda x: list(reversed(x))}[d](*args)
+                return r
+            except Exception:
+                self.err(func, e, "builtin call")
+        if d == "getattr" and len(e.args) == 3:
+            o = self.expr(fr, e.args[0])
+            n = self.expr(fr, e.args[1])
+            if isinstance(o, (ClassInfo, ExtClass)):
+                owner, v = m.lookup(o, n)
+                if owner is None:
+                    return self.expr(fr, e.args[2])
+                return self.getattr_(fr, o, n, e)
+        if d == "issubclass" and len(e.args) == 2:
+            a = self.expr(fr, e.args[0])
+            b = self.expr(fr, e.args[1])
+            if isinstance(a, ClassInfo) and isinstance(b, (ClassInfo, ExtClass)):
+                return b in a.mro
+        if d == "logger.debug" or (d or "").startswith("logger.") or d in ("print", "warnings.warn"):
+            return None
         callee = self.expr(fr, e.func)
         args = [self.expr(fr, a) for a in e.args]
         kwargs = {k.arg: self.expr(fr, k.value) for k in e.keywords}
